@@ -254,10 +254,24 @@ func (pr *Pair) OpenSub(by int, bals [][2]*big.Int, challenge uint64) error {
 // CloseSub finalises the open sub-channel (final update by its index 0) and
 // settles it into the parent from both sides.
 func (pr *Pair) CloseSub() error {
+	if err := pr.FinalizeSub(); err != nil {
+		return err
+	}
+	return pr.SettleSub()
+}
+
+// FinalizeSub makes the final update of the open sub-channel (proposed by its
+// index 0).
+func (pr *Pair) FinalizeSub() error {
 	by := pr.SubBy
 	if err := pr.Update(by, pr.Sub[by], func(s *channel.State) { s.IsFinal = true }, true); err != nil {
 		return errors.WithMessage(err, "final sub-channel update")
 	}
+	return nil
+}
+
+// SettleSub settles the finalised sub-channel into the parent from both sides.
+func (pr *Pair) SettleSub() error {
 	ctx, cancel := context.WithTimeout(context.Background(), HangLimit)
 	defer cancel()
 	pr.accept[0].Store(true)
